@@ -47,13 +47,22 @@ def main():
                 # re-run alone, serially, before the verdict
                 tr = sh("cd %s && /venv/bin/python -m pytest -q -p no:cacheprovider -n 8 --timeout=900 -rf 2>&1 | tail -60" % WT,
                         timeout=3600)
-                failed = sorted(set(l.split()[1] for l in tr.stdout.splitlines() if l.startswith("FAILED ")))
+                failed = sorted(set(l.split()[1].split("[")[0] for l in tr.stdout.splitlines() if l.startswith("FAILED ")))
                 tests = tr.stdout.strip().splitlines()[-1] if tr.stdout.strip() else "no output"
                 if failed:
                     rr = sh("cd %s && /venv/bin/python -m pytest -q -p no:cacheprovider --timeout=900 %s 2>&1 | tail -3"
                             % (WT, " ".join("'%s'" % f for f in failed)), timeout=3600)
                     tests += " | re-run of %d failed alone: %s" % (len(failed), rr.stdout.strip().splitlines()[-1] if rr.stdout.strip() else "?")
             t0 = time.time()
+            if os.environ.get("SEED_SKIP_CHECK"):
+                # only (re-)confirm the test-suite claim; keep the recorded check outcome
+                rp = os.path.join(d, "result.json")
+                res = json.load(open(rp)) if os.path.exists(rp) else {"id": sid, "property": pid}
+                res["tests_with_change"] = tests
+                res["demo_with_change_rc"], res["demo_without_change_rc"] = demo_mut.returncode, demo_clean.returncode
+                json.dump(res, open(rp, "w"), indent=1)
+                print((sid, pid, "TESTS", tests), flush=True)
+                continue
             chk = sh("COXETER_REPO=%s ./check %s --tier quick" % (WT, pid), cwd=VERIF, timeout=3600)
             viol = [l for l in chk.stdout.splitlines() if l.startswith("VIOLATION")]
             res = {"id": sid, "property": pid, "demo_with_change_rc": demo_mut.returncode,
